@@ -412,8 +412,17 @@ def oracle_edit_distance(rng, n, stats, props=('C03',)):
                 if qual and ts.padding and max(len(ls), len(rs)) >= ts.qval * tau - ts.qval + 2 and not present and d <= tau:
                     v.append(viol('C03', 'padding corollary: long qualifying pair missing', case, [a, b], None))
         stats.hit('oracle.ed.rows', len(out))
-        if 'C08' in props or 'C11' in props or True:
-            pass
+        if 'C08' in props:
+            am = kw.get('allow_missing', False)
+            lall, rall = [keyv(x) for x in L[lk]], [keyv(x) for x in R[rk]]
+            exp_missing = set((a, b) for a in lall for b in rall if a in lmiss or b in rmiss)
+            got_missing = [p for p in pairs if p[0] in lmiss or p[1] in rmiss]
+            if not am and got_missing:
+                v.append(viol('C08', 'row with a missing join value in the output of edit_distance_join although allow_missing=False', case, [], got_missing[:3]))
+            if am and (set(got_missing) != exp_missing or len(got_missing) != len(exp_missing)):
+                v.append(viol('C08', 'edit_distance_join: pairs with a missing value are not exactly {missing x all}', case, len(exp_missing), len(got_missing)))
+            if am and oss and any(not is_missing(sc) for p, sc in zip(pairs, scores) if p[0] in lmiss or p[1] in rmiss):
+                v.append(viol('C08', 'edit_distance_join: a pair with a missing value carries a score', case))
     return v
 
 
@@ -449,8 +458,10 @@ def oracle_filters(rng, n, stats, props, kinds=('size', 'prefix', 'position', 's
             # the SAME filter object on another pair of tables: a filter is a value (tokenizer, measure, threshold, flags);
             # whatever it did on earlier tables must not matter
             kind, ts, f, d = prev
+            prev_is_new = False
             stats.hit('oracle.filters.object_reused')
         else:
+            prev_is_new = True
             kind = rng.choice(kinds)
             # tokenizer consistent with the property's assumption: sets for set measures, bags of q-grams for ED
             ts = gen_tokenizer(rng)
@@ -461,7 +472,12 @@ def oracle_filters(rng, n, stats, props, kinds=('size', 'prefix', 'position', 's
         t = f.overlap_size if kind == 'overlap' else f.threshold
         if m == 'EDIT_DISTANCE':
             ts.obj.set_return_set(False)
-        else:
+        elif kind == 'overlap' and prev_is_new and rng.random() < 0.4:
+            # OverlapFilter counts DISTINCT common tokens whatever the tokenizer returns (its similarity function builds the
+            # sets itself): a bag tokenizer must give the same verdicts
+            ts.obj.set_return_set(False)
+            stats.hit('oracle.filters.overlap_bag_tokenizer')
+        elif prev_is_new:
             ts.obj.set_return_set(True)
         L, R, lk, rk, la, ra = gen_join_frames(rng, ts, stats, big=rng.random() < 0.3)
         case0 = {'ltable': frame_to_case(L), 'rtable': frame_to_case(R), 'l_key': lk, 'r_key': rk, 'l_attr': la, 'r_attr': ra}
@@ -494,6 +510,10 @@ def oracle_filters(rng, n, stats, props, kinds=('size', 'prefix', 'position', 's
                     exact = bool(ls) and bool(rs) and OPS[f.comp_op](ov, f.overlap_size)
                     if 'C06' in props and dropped_pair == exact:
                         v.append(viol('C06', 'OverlapFilter.filter_pair is not exact (overlap %d, size %s %s)' % (ov, f.comp_op, f.overlap_size), case, not exact, dropped_pair))
+                    if not cur:
+                        # bag tokenizer: only filter_pair is claimed exact (C06's quantifier: "filter_tables with a set-returning
+                        # tokenizer, as overlap_join arranges; a bag tokenizer would count repeated tokens")
+                        continue
                     exact_t = ov > 0 and OPS[f.comp_op](ov, f.overlap_size)
                     if 'C06' in props and in_tables != exact_t:
                         v.append(viol('C06', 'OverlapFilter.filter_tables is not exact (overlap %d)' % ov, case, exact_t, in_tables))
@@ -580,7 +600,7 @@ def oracle_matcher(rng, n, stats):
         use_tok = rng.random() < 0.75
         ts = gen_tokenizer(rng) if use_tok else None
         L, R, lk, rk, la, ra = gen_join_frames(rng, ts or TokSpec('ws'), stats)
-        C, clk, crk = gen_candset(rng, L, R, lk, rk, stats)
+        C, clk, crk = gen_candset(rng, L, R, lk, rk, stats, la=la)
         if use_tok:
             name, base = rng.choice([('jaccard', Jaccard().get_raw_score), ('overlap', lambda a, b: len(set(a) & set(b))), ('dice', Dice().get_raw_score)])
         elif L is not R and rng.random() < 0.25:
@@ -727,8 +747,8 @@ def oracle_pipeline(rng, n, stats):
         kw.pop('r_out_prefix', None)
         if which == 'edit_distance':
             kw['comp_op'] = '<='
-        elif kw['comp_op'] == '=':
-            kw['comp_op'] = '>='
+        elif kw['comp_op'] == '=' and which != 'overlap':
+            kw['comp_op'] = '>='            # ('=' stays for the overlap size: an integer, no rounding involved)
         case = join_case(which, ts, L, R, lk, rk, la, ra, t, kw)
         try:
             J = call_join(which, L, R, lk, rk, la, ra, ts, t, kw)
